@@ -241,7 +241,8 @@ Definition op_imports_ok (o : op) : bool :=
 Definition imports_ok (s : spec) : bool := forallb op_imports_ok s.
 
 (* Raised c st r : exception of class c with .status_code = st; r = (.response is the response object) *)
-Inductive outcome := Returned | Raised (c : cls) (st : N) (resp_carried : bool) | ImportFails.
+(* Crashed: the `raise X(...)` statement itself failed with TypeError because the name X denotes something else *)
+Inductive outcome := Returned | Raised (c : cls) (st : N) (resp_carried : bool) | ImportFails | Crashed.
 
 Definition call (k : kind) (s : spec) (o : op) (st : N) : outcome :=
   if negb (imports_ok s) then ImportFails
@@ -255,6 +256,27 @@ Definition call (k : kind) (s : spec) (o : op) (st : N) : outcome :=
            | ARaiseFallback => Raised (Named (range_class handler_ranges handler_fallback_raises st)) st true
            end
        end.
+
+(* ---- the import namespace of the endpoints module.  The module imports, by name, the exception classes it raises and
+   the model classes of its operations' 2xx bodies (the models last): a model class with the same name would SHADOW the
+   exception class.  _exception_ref therefore references a class whose name is also a model class name of the spec
+   through its module (`exception_aliases.NotFoundError`, `exceptions.ClientError`); every other class by name.
+   [all] = model class names of the whole spec (superset of [ms] = those imported by this module). *)
+Inductive ref := ByName (n : str) | Qualified (n : str).
+Definition exception_ref (all : list str) (c : cls) : ref :=
+  if mem_str (cls_name c) all then Qualified (cls_name c) else ByName (cls_name c).
+(* does the reference denote the exception class in a module that imports the model classes [ms] by name? *)
+Definition resolves (ms : list str) (r : ref) : bool :=
+  match r with Qualified _ => true | ByName n => negb (mem_str n ms) end.
+
+Definition call_ns (k : kind) (s : spec) (all ms : list str) (o : op) (st : N) : outcome :=
+  match transport k st with
+  | Some _ => call k s o st          (* raised inside core/http_transport.py: nothing is shadowed there *)
+  | None => match call k s o st with
+            | Raised c st' r => if resolves ms (exception_ref all c) then Raised c st' r else Crashed
+            | x => x
+            end
+  end.
 
 (* ------------------------------------------------------------------ the property (from its text) *)
 Definition s_HTTPError : str := [72;84;84;80;69;114;114;111;114].
